@@ -114,17 +114,23 @@ type c07Query struct {
 var c07Decors = []struct {
 	sel  string
 	cols [3]int
+	wrap string // how a key column is written in ORDER BY ("" = the column itself): an expression with the column's value
 }{
-	{"SELECT k1, k2, id FROM t", [3]int{0, 1, 2}},
-	{"SELECT DISTINCT k1, k2, id FROM t", [3]int{0, 1, 2}},
-	{"SELECT DISTINCT k2, k1, id, RANK() OVER (ORDER BY k1) AS r FROM t", [3]int{1, 0, 2}},
-	{"SELECT k1, k2, id, ROW_NUMBER() OVER (PARTITION BY k2 ORDER BY k1 DESC) AS r FROM t", [3]int{0, 1, 2}},
-	{"SELECT k1, k2, id FROM t GROUP BY k1, k2, id", [3]int{0, 1, 2}},
-	{"SELECT k2, k1, id, COUNT(*) OVER (PARTITION BY k1) AS n, SUM(id) OVER (ORDER BY k2 DESC, id) AS s FROM t", [3]int{1, 0, 2}},
+	{"SELECT k1, k2, id FROM t", [3]int{0, 1, 2}, ""},
+	{"SELECT DISTINCT k1, k2, id FROM t", [3]int{0, 1, 2}, ""},
+	{"SELECT DISTINCT k2, k1, id, RANK() OVER (ORDER BY k1) AS r FROM t", [3]int{1, 0, 2}, ""},
+	{"SELECT k1, k2, id, ROW_NUMBER() OVER (PARTITION BY k2 ORDER BY k1 DESC) AS r FROM t", [3]int{0, 1, 2}, ""},
+	{"SELECT k1, k2, id FROM t GROUP BY k1, k2, id", [3]int{0, 1, 2}, ""},
+	{"SELECT k2, k1, id, COUNT(*) OVER (PARTITION BY k1) AS n, SUM(id) OVER (ORDER BY k2 DESC, id) AS s FROM t", [3]int{1, 0, 2}, ""},
 	// set operations whose (empty) other operand carries an OFFSET / LIMIT of its own
-	{"(SELECT k1, k2, id FROM t WHERE FALSE OFFSET 1) UNION ALL SELECT k1, k2, id FROM t", [3]int{0, 1, 2}},
-	{"SELECT k1, k2, id FROM t UNION ALL (SELECT k1, k2, id FROM t WHERE FALSE LIMIT 1 OFFSET 2)", [3]int{0, 1, 2}},
-	{"(SELECT k1, k2, id FROM t ORDER BY id DESC LIMIT 100 PERCENT OFFSET 0) EXCEPT SELECT k1, k2, id FROM t WHERE FALSE", [3]int{0, 1, 2}},
+	{"(SELECT k1, k2, id FROM t WHERE FALSE OFFSET 1) UNION ALL SELECT k1, k2, id FROM t", [3]int{0, 1, 2}, ""},
+	{"SELECT k1, k2, id FROM t UNION ALL (SELECT k1, k2, id FROM t WHERE FALSE LIMIT 1 OFFSET 2)", [3]int{0, 1, 2}, ""},
+	{"(SELECT k1, k2, id FROM t ORDER BY id DESC LIMIT 100 PERCENT OFFSET 0) EXCEPT SELECT k1, k2, id FROM t WHERE FALSE", [3]int{0, 1, 2}, ""},
+	// the sort key is an expression; the select list holds an expression that differs from it only in the letter case of a
+	// text literal (and is NULL in every row), one that is exactly the key, and one that differs in white space only
+	{"SELECT k1, k2, id, IF(INSTR('abc', 'B') IS NOT NULL, k1, NULL) AS d1, IF(INSTR('abc', 'B') IS NOT NULL, k2, NULL) AS d2 FROM t", [3]int{0, 1, 2}, "IF(INSTR('abc', 'b') IS NOT NULL, %s, NULL)"},
+	{"SELECT IF(INSTR('abc', 'b') IS NOT NULL, k1, NULL) AS e1, IF(INSTR('abc', 'b') IS NOT NULL, k2, NULL) AS e2, id FROM t", [3]int{0, 1, 2}, "IF(INSTR('abc', 'b') IS NOT NULL, %s, NULL)"},
+	{"SELECT k1, k2, id, COALESCE(NULL,k1) AS x, COALESCE( NULL , k2 ) AS y FROM t", [3]int{0, 1, 2}, "COALESCE(NULL, %s)"},
 }
 
 func c07Undecorate(q c07Query, out [][]rv.V) [][]rv.V {
@@ -152,6 +158,9 @@ func (q c07Query) OrderSQL() string {
 	parts := make([]string, len(q.Keys))
 	for i, k := range q.Keys {
 		s := c07Cols[k.Col]
+		if q.Decor > 0 && q.Decor < len(c07Decors) && c07Decors[q.Decor].wrap != "" {
+			s = fmt.Sprintf(c07Decors[q.Decor].wrap, s)
+		}
 		switch k.Dir {
 		case ordref.DirAsc:
 			s += " ASC"
